@@ -744,10 +744,16 @@ func (o *Origin) allocEvents(al *ssa.Alloc) []allocEvent {
 				name := "escape"
 				if c, ok := u.(ssa.CallInstruction); ok {
 					name = "call:" + calleeName(c.Common())
-					ev := allocEvent{in: u, esc: true, escBy: name, callee: c.Common().StaticCallee(), argIdx: -1}
+					sc, off := c.Common().StaticCallee(), 0
+					if sc == nil {
+						if d := devirt(c.Common()); d != nil {
+							sc, off = d, 1 // the implementer's parameters start with the receiver
+						}
+					}
+					ev := allocEvent{in: u, esc: true, escBy: name, callee: sc, argIdx: -1}
 					for i, a := range c.Common().Args {
 						if a == addr {
-							ev.argIdx = i
+							ev.argIdx = i + off
 						}
 					}
 					evs = append(evs, ev)
@@ -757,10 +763,16 @@ func (o *Origin) allocEvents(al *ssa.Alloc) []allocEvent {
 					if mrefs := mi.Referrers(); mrefs != nil {
 						for _, mr := range *mrefs {
 							if c, ok := mr.(ssa.CallInstruction); ok {
-								ev := allocEvent{in: c.(ssa.Instruction), esc: true, escBy: "call:" + calleeName(c.Common()), callee: c.Common().StaticCallee(), argIdx: -1}
+								sc, off := c.Common().StaticCallee(), 0
+								if sc == nil {
+									if d := devirt(c.Common()); d != nil {
+										sc, off = d, 1
+									}
+								}
+								ev := allocEvent{in: c.(ssa.Instruction), esc: true, escBy: "call:" + calleeName(c.Common()), callee: sc, argIdx: -1}
 								for i, a := range c.Common().Args {
 									if a == ssa.Value(mi) {
-										ev.argIdx = i
+										ev.argIdx = i + off
 									}
 								}
 								evs = append(evs, ev)
